@@ -21,9 +21,6 @@
 From Coq Require Import List Bool NArith ZArith Arith.
 Import ListNotations.
 From BioVerif Require Model.ISISCodec Model.Adj Model.LSDB.
-Module C := ISISCodec.
-Module A := Adj.
-Module L := LSDB.
 Open Scope N_scope.
 
 (* ------------------------------------------------------------------ numbers <-> bytes *)
@@ -40,19 +37,19 @@ Definition u16 (x : N) : N := x mod 65536.
 Definition u32 (x : N) : N := x mod 4294967296.
 
 (* LSP id: 8 bytes on the wire, (system id, pseudonode id, LSP number) in the database *)
-Definition id_of_bytes (b : list N) : L.lspid :=
-  L.mkId (be_val (firstn 6 b)) (nth 6 b 0 mod 256) (nth 7 b 0 mod 256).
-Definition id_bytes (k : L.lspid) : list N :=
-  be_bytes 6 (L.sys k) ++ [L.pn k mod 256; L.num k mod 256].
+Definition id_of_bytes (b : list N) : LSDB.lspid :=
+  LSDB.mkId (be_val (firstn 6 b)) (nth 6 b 0 mod 256) (nth 7 b 0 mod 256).
+Definition id_bytes (k : LSDB.lspid) : list N :=
+  be_bytes 6 (LSDB.sys k) ++ [LSDB.pn k mod 256; LSDB.num k mod 256].
 
 Definition llc : list N := [254; 254; 3].
 
 (* net_ifa_tx.go getHeader / lengthIndicatorByPDUType *)
-Definition hdr (ty li : N) : C.header := C.mkHeader 131 li 1 0 ty 1 0.
-Definition hdr_hello : C.header := hdr 17 20.
-Definition hdr_lsp : C.header := hdr 20 27.
-Definition hdr_csnp : C.header := hdr 25 33.
-Definition hdr_psnp : C.header := hdr 27 17.
+Definition hdr (ty li : N) : ISISCodec.header := ISISCodec.mkHeader 131 li 1 0 ty 1 0.
+Definition hdr_hello : ISISCodec.header := hdr 17 20.
+Definition hdr_lsp : ISISCodec.header := hdr 20 27.
+Definition hdr_csnp : ISISCodec.header := hdr 25 33.
+Definition hdr_psnp : ISISCodec.header := hdr 27 17.
 
 (* ------------------------------------------------------------------ state *)
 
@@ -68,7 +65,7 @@ Record sif := mkSif {
   if_addr : N;                        (* the interface's IPv4 address ... *)
   if_plen : N;                        (* ... and prefix length *)
   if_up : bool;                       (* link up: hello sender and receiver run (C33) *)
-  if_nbrs : A.table;                  (* level 2 neighbors, keyed by source MAC *)
+  if_nbrs : Adj.table;                  (* level 2 neighbors, keyed by source MAC *)
   if_info : list (N * nbrinfo)
 }.
 
@@ -80,8 +77,8 @@ Record spk := mkSpk {
   sp_hello_int : N;                   (* hello interval, seconds *)
   sp_metric : N;
   sp_ifs : list sif;
-  sp_db : L.srv;                      (* database, flags, sequence counter, update request *)
-  sp_pdus : list (L.lspid * C.lsp);   (* the PDU behind each database entry (what is flooded) *)
+  sp_db : LSDB.srv;                      (* database, flags, sequence counter, update request *)
+  sp_pdus : list (LSDB.lspid * ISISCodec.lsp);   (* the PDU behind each database entry (what is flooded) *)
   sp_now : N
 }.
 
@@ -91,23 +88,23 @@ Fixpoint info_lookup (k : N) (t : list (N * nbrinfo)) : option nbrinfo :=
   | (k', v) :: r => if N.eqb k' k then Some v else info_lookup k r
   end.
 
-Fixpoint pdu_lookup (k : L.lspid) (t : list (L.lspid * C.lsp)) : option C.lsp :=
+Fixpoint pdu_lookup (k : LSDB.lspid) (t : list (LSDB.lspid * ISISCodec.lsp)) : option ISISCodec.lsp :=
   match t with
   | [] => None
-  | (k', v) :: r => if L.id_eqb k' k then Some v else pdu_lookup k r
+  | (k', v) :: r => if LSDB.id_eqb k' k then Some v else pdu_lookup k r
   end.
 
 Definition is_empty {X : Type} (l : list X) : bool := match l with [] => true | _ => false end.
 
 (* the LSDB model's view of the interfaces: all active; "has a neighbor" from the neighbor tables *)
-Definition db_ifs (ifs : list sif) : list L.iface :=
-  map (fun f => L.mkIf false (negb (is_empty (if_nbrs f)))) ifs.
+Definition db_ifs (ifs : list sif) : list LSDB.iface :=
+  map (fun f => LSDB.mkIf false (negb (is_empty (if_nbrs f)))) ifs.
 
-Definition sync_db (ifs : list sif) (d : L.srv) : L.srv :=
-  L.mkS (db_ifs ifs) (L.own d) (L.db d) (L.counter d) (L.pending d).
+Definition sync_db (ifs : list sif) (d : LSDB.srv) : LSDB.srv :=
+  LSDB.mkS (db_ifs ifs) (LSDB.own d) (LSDB.db d) (LSDB.counter d) (LSDB.pending d).
 
-Definition request (d : L.srv) (req : bool) : L.srv :=
-  L.mkS (L.ifs d) (L.own d) (L.db d) (L.counter d) (L.pending d || req).
+Definition request (d : LSDB.srv) (req : bool) : LSDB.srv :=
+  LSDB.mkS (LSDB.ifs d) (LSDB.own d) (LSDB.db d) (LSDB.counter d) (LSDB.pending d || req).
 
 Fixpoint set_nth {X : Type} (i : nat) (x : X) (l : list X) : list X :=
   match l, i with
@@ -118,10 +115,10 @@ Fixpoint set_nth {X : Type} (i : nat) (x : X) (l : list X) : list X :=
 
 (* ------------------------------------------------------------------ received hello -> verdict (neighbor_manager.go) *)
 
-Fixpoint first_tlv (ty : N) (ts : list C.tlv) : option C.tlv :=
+Fixpoint first_tlv (ty : N) (ts : list ISISCodec.tlv) : option ISISCodec.tlv :=
   match ts with
   | [] => None
-  | t :: r => if N.eqb (C.tlv_type t) ty then Some t else first_tlv ty r
+  | t :: r => if N.eqb (ISISCodec.tlv_type t) ty then Some t else first_tlv ty r
   end.
 
 (* bnet.Prefix.Contains for a /32 needle *)
@@ -130,10 +127,10 @@ Definition pfx_contains (base plen a : N) : bool :=
 
 (* validateP2PHello: area TLV with at least one area, three-way TLV, protocols supported with IPv4
    and IPv6, IP interface addresses TLV with an address inside the interface's subnet *)
-Definition hello_valid (f : sif) (h : C.hello) : bool :=
-  match first_tlv 1 (C.hl_tlvs h), first_tlv 240 (C.hl_tlvs h),
-        first_tlv 129 (C.hl_tlvs h), first_tlv 132 (C.hl_tlvs h) with
-  | Some (C.TArea _ _ areas), Some (C.TP2PAdj _ _ _ _ _ _), Some (C.TProto _ _ ids), Some (C.TIPIf _ _ addrs) =>
+Definition hello_valid (f : sif) (h : ISISCodec.hello) : bool :=
+  match first_tlv 1 (ISISCodec.hl_tlvs h), first_tlv 240 (ISISCodec.hl_tlvs h),
+        first_tlv 129 (ISISCodec.hl_tlvs h), first_tlv 132 (ISISCodec.hl_tlvs h) with
+  | Some (ISISCodec.TArea _ _ areas), Some (ISISCodec.TP2PAdj _ _ _ _ _ _), Some (ISISCodec.TProto _ _ ids), Some (ISISCodec.TIPIf _ _ addrs) =>
     negb (is_empty areas) &&
     existsb (N.eqb 204) ids && existsb (N.eqb 142) ids &&
     existsb (pfx_contains (if_addr f) (if_plen f)) addrs
@@ -141,150 +138,150 @@ Definition hello_valid (f : sif) (h : C.hello) : bool :=
   end.
 
 (* neighbor.p2pAdjTLVContainsSelf *)
-Definition lists_me (s : spk) (f : sif) (h : C.hello) : bool :=
-  match first_tlv 240 (C.hl_tlvs h) with
-  | Some (C.TP2PAdj _ _ _ _ nsys necid) =>
+Definition lists_me (s : spk) (f : sif) (h : ISISCodec.hello) : bool :=
+  match first_tlv 240 (ISISCodec.hl_tlvs h) with
+  | Some (ISISCodec.TP2PAdj _ _ _ _ nsys necid) =>
     (be_val nsys =? be_val (sp_sys s)) && (N.of_nat (length nsys) =? 6) && (u32 necid =? u32 (if_index f))
   | _ => false
   end.
 
 (* netIfa.processP2PHello: only circuit types L2 (2) and L1L2 (3) reach the level 2 neighbor manager *)
-Definition hello_verdict (s : spk) (f : sif) (h : C.hello) : A.verdict :=
-  if negb ((C.hl_ct h =? 2) || (C.hl_ct h =? 3)) then A.Ignored
-  else if negb (hello_valid f h) then A.Rejected
-  else if lists_me s f h then A.Lists else A.NotLists.
+Definition hello_verdict (s : spk) (f : sif) (h : ISISCodec.hello) : Adj.verdict :=
+  if negb ((ISISCodec.hl_ct h =? 2) || (ISISCodec.hl_ct h =? 3)) then Adj.Ignored
+  else if negb (hello_valid f h) then Adj.Rejected
+  else if lists_me s f h then Adj.Lists else Adj.NotLists.
 
 (* neighborFromP2PHello: what is remembered of a neighbor's first hello *)
-Definition info_of_hello (h : C.hello) : nbrinfo :=
-  mkInfo (C.hl_sys h)
-         (match first_tlv 240 (C.hl_tlvs h) with Some (C.TP2PAdj _ _ _ ecid _ _) => u32 ecid | _ => 0 end)
-         (match first_tlv 132 (C.hl_tlvs h) with Some (C.TIPIf _ _ addrs) => map u32 addrs | _ => [] end).
+Definition info_of_hello (h : ISISCodec.hello) : nbrinfo :=
+  mkInfo (ISISCodec.hl_sys h)
+         (match first_tlv 240 (ISISCodec.hl_tlvs h) with Some (ISISCodec.TP2PAdj _ _ _ ecid _ _) => u32 ecid | _ => 0 end)
+         (match first_tlv 132 (ISISCodec.hl_tlvs h) with Some (ISISCodec.TIPIf _ _ addrs) => map u32 addrs | _ => [] end).
 
 (* the neighbor table step of Model/Adj.v on this interface's table at the speaker's clock *)
-Definition adj_hello (now : N) (t : A.table) (k hold : N) (v : A.verdict) : A.table * bool :=
-  let a := A.step (A.mkSrv now t false []) (A.Hello k hold v) in (A.nbrs a, A.pending a).
+Definition adj_hello (now : N) (t : Adj.table) (k hold : N) (v : Adj.verdict) : Adj.table * bool :=
+  let a := Adj.step (Adj.mkSrv now t false []) (Adj.Hello k hold v) in (Adj.nbrs a, Adj.pending a).
 
-Definition adj_check (now : N) (t : A.table) : A.table * bool := A.check_all now t.
+Definition adj_check (now : N) (t : Adj.table) : Adj.table * bool := Adj.check_all now t.
 
 (* ------------------------------------------------------------------ own LSP (lsp.go generateLocalLSP) *)
 
 Definition up_nbrs (f : sif) : list (N * nbrinfo) :=
-  flat_map (fun kv => if A.is_up (A.state (snd kv))
+  flat_map (fun kv => if Adj.is_up (Adj.state (snd kv))
                       then match info_lookup (fst kv) (if_info f) with Some i => [(fst kv, i)] | None => [] end
                       else []) (if_nbrs f).
 
 (* neighbor.extendedISReachabilityNeighbor *)
-Definition extis_of (s : spk) (f : sif) (i : nbrinfo) : C.extisnbr :=
-  C.new_extis_nbr (ni_sys i ++ [0]) (sp_metric s)
-    ([C.SIPv4 6 4 (if_addr f)] ++ map (fun a => C.SIPv4 8 4 a) (ni_addrs i) ++
-     [C.SLinkLR 4 8 (u32 (if_index f)) (ni_ecid i)]).
+Definition extis_of (s : spk) (f : sif) (i : nbrinfo) : ISISCodec.extisnbr :=
+  ISISCodec.new_extis_nbr (ni_sys i ++ [0]) (sp_metric s)
+    ([ISISCodec.SIPv4 6 4 (if_addr f)] ++ map (fun a => ISISCodec.SIPv4 8 4 a) (ni_addrs i) ++
+     [ISISCodec.SLinkLR 4 8 (u32 (if_index f)) (ni_ecid i)]).
 
 Definition base_addr (a plen : N) : N := let sh := 2 ^ (32 - plen) in a / sh * sh.
 
-Definition own_lsp_tlvs (s : spk) : list C.tlv :=
-  [ C.new_area_tlv [sp_area s];
-    C.new_proto_tlv [204; 142];
-    C.new_ipif_tlv (map if_addr (sp_ifs s));
-    C.new_extip_tlv (map (fun f => (sp_metric s, if_plen f, base_addr (if_addr f) (if_plen f)))
+Definition own_lsp_tlvs (s : spk) : list ISISCodec.tlv :=
+  [ ISISCodec.new_area_tlv [sp_area s];
+    ISISCodec.new_proto_tlv [204; 142];
+    ISISCodec.new_ipif_tlv (map if_addr (sp_ifs s));
+    ISISCodec.new_extip_tlv (map (fun f => (sp_metric s, if_plen f, base_addr (if_addr f) (if_plen f)))
                          (filter if_up (sp_ifs s)));
-    C.new_extis_tlv (flat_map (fun f => map (fun ki => extis_of s f (snd ki)) (up_nbrs f)) (sp_ifs s));
-    C.new_dynhost_tlv (sp_host s) ].
+    ISISCodec.new_extis_tlv (flat_map (fun f => map (fun ki => extis_of s f (snd ki)) (up_nbrs f)) (sp_ifs s));
+    ISISCodec.new_dynhost_tlv (sp_host s) ].
 
-Definition own_lsp (s : spk) (sq : N) : C.lsp :=
-  C.lsp_set_checksum (C.lsp_update_length
-    (C.mkLsp 0 L.default_lifetime (id_bytes (L.local_id (sp_db s))) sq 0 0 (own_lsp_tlvs s))).
+Definition own_lsp (s : spk) (sq : N) : ISISCodec.lsp :=
+  ISISCodec.lsp_set_checksum (ISISCodec.lsp_update_length
+    (ISISCodec.mkLsp 0 LSDB.default_lifetime (id_bytes (LSDB.local_id (sp_db s))) sq 0 0 (own_lsp_tlvs s))).
 
-Fixpoint pdu_store (k : L.lspid) (v : C.lsp) (t : list (L.lspid * C.lsp)) : list (L.lspid * C.lsp) :=
+Fixpoint pdu_store (k : LSDB.lspid) (v : ISISCodec.lsp) (t : list (LSDB.lspid * ISISCodec.lsp)) : list (LSDB.lspid * ISISCodec.lsp) :=
   match t with
   | [] => [(k, v)]
-  | (k', v') :: r => if L.id_eqb k' k then (k', v) :: r else (k', v') :: pdu_store k v r
+  | (k', v') :: r => if LSDB.id_eqb k' k then (k', v) :: r else (k', v') :: pdu_store k v r
   end.
 
 (* l2LSPUpdater: serve a queued request: new sequence number, new content, SRM on all interfaces *)
 Definition service (s : spk) : spk :=
   let d := sync_db (sp_ifs s) (sp_db s) in
-  if L.pending d then
-    let d' := L.service d in
+  if LSDB.pending d then
+    let d' := LSDB.service d in
     mkSpk (sp_sys s) (sp_area s) (sp_host s) (sp_hold s) (sp_hello_int s) (sp_metric s) (sp_ifs s) d'
-          (pdu_store (L.local_id d) (own_lsp s (L.counter d')) (sp_pdus s)) (sp_now s)
+          (pdu_store (LSDB.local_id d) (own_lsp s (LSDB.counter d')) (sp_pdus s)) (sp_now s)
   else s.
 
-Definition with_ifs_db (s : spk) (ifs : list sif) (d : L.srv) : spk :=
+Definition with_ifs_db (s : spk) (ifs : list sif) (d : LSDB.srv) : spk :=
   mkSpk (sp_sys s) (sp_area s) (sp_host s) (sp_hold s) (sp_hello_int s) (sp_metric s) ifs d (sp_pdus s) (sp_now s).
 
 (* ------------------------------------------------------------------ received PDUs (net_ifa_rx.go processPkt) *)
 
-Definition tlv_entries (t : C.tlv) : list C.lspentry :=
-  match t with C.TEntries _ _ es => es | _ => [] end.
+Definition tlv_entries (t : ISISCodec.tlv) : list ISISCodec.lspentry :=
+  match t with ISISCodec.TEntries _ _ es => es | _ => [] end.
 
 (* GetLSPEntries: the entries of all LSP entries TLVs, as (id, sequence number, lifetime) *)
-Definition snp_entries_of (ts : list C.tlv) : list (L.lspid * N * N) :=
-  map (fun e => (id_of_bytes (C.le_id e), u32 (C.le_seq e), u16 (C.le_life e)))
-      (flat_map tlv_entries (filter (fun t => N.eqb (C.tlv_type t) 9) ts)).
+Definition snp_entries_of (ts : list ISISCodec.tlv) : list (LSDB.lspid * N * N) :=
+  map (fun e => (id_of_bytes (ISISCodec.le_id e), u32 (ISISCodec.le_seq e), u16 (ISISCodec.le_life e)))
+      (flat_map tlv_entries (filter (fun t => N.eqb (ISISCodec.tlv_type t) 9) ts)).
 
 (* the checksum a "requested" (sequence number 0) entry is created with: a header-only PDU *)
-Definition placeholder_pdu (e : C.lspentry) : C.lsp :=
-  C.mkLsp 0 (u16 (C.le_life e)) (id_bytes (id_of_bytes (C.le_id e))) 0 (u16 (C.le_csum e)) 0 [].
+Definition placeholder_pdu (e : ISISCodec.lspentry) : ISISCodec.lsp :=
+  ISISCodec.mkLsp 0 (u16 (ISISCodec.le_life e)) (id_bytes (id_of_bytes (ISISCodec.le_id e))) 0 (u16 (ISISCodec.le_csum e)) 0 [].
 
 (* pdus of entries an SNP creates (processCSNPLSPEntryUnknown), in processing order *)
-Fixpoint snp_new_pdus (d : L.srv) (i : nat) (es : list C.lspentry) (p : list (L.lspid * C.lsp))
-  : list (L.lspid * C.lsp) :=
+Fixpoint snp_new_pdus (d : LSDB.srv) (i : nat) (es : list ISISCodec.lspentry) (p : list (LSDB.lspid * ISISCodec.lsp))
+  : list (LSDB.lspid * ISISCodec.lsp) :=
   match es with
   | [] => p
   | e :: r =>
-    let k := id_of_bytes (C.le_id e) in
-    let p' := match L.lookup k (L.db d) with None => pdu_store k (placeholder_pdu e) p | Some _ => p end in
-    snp_new_pdus (L.snp_entry d i (k, u32 (C.le_seq e), u16 (C.le_life e))) i r p'
+    let k := id_of_bytes (ISISCodec.le_id e) in
+    let p' := match LSDB.lookup k (LSDB.db d) with None => pdu_store k (placeholder_pdu e) p | Some _ => p end in
+    snp_new_pdus (LSDB.snp_entry d i (k, u32 (ISISCodec.le_seq e), u16 (ISISCodec.le_life e))) i r p'
   end.
 
 (* validatePkt: level 2 LSPs and SNPs are only accepted from a neighbor whose adjacency is Up *)
 Definition nbr_up (f : sif) (src : N) : bool :=
-  match A.lookup src (if_nbrs f) with Some nb => A.is_up (A.state nb) | None => false end.
+  match Adj.lookup src (if_nbrs f) with Some nb => Adj.is_up (Adj.state nb) | None => false end.
 
-Definition norm_recv_lsp (x : C.lsp) : C.lsp :=
-  C.mkLsp (u16 (C.ls_len x)) (u16 (C.ls_life x)) (id_bytes (id_of_bytes (C.ls_id x))) (u32 (C.ls_seq x))
-          (u16 (C.ls_csum x)) (C.ls_tb x mod 256) (C.ls_tlvs x).
+Definition norm_recv_lsp (x : ISISCodec.lsp) : ISISCodec.lsp :=
+  ISISCodec.mkLsp (u16 (ISISCodec.ls_len x)) (u16 (ISISCodec.ls_life x)) (id_bytes (id_of_bytes (ISISCodec.ls_id x))) (u32 (ISISCodec.ls_seq x))
+          (u16 (ISISCodec.ls_csum x)) (ISISCodec.ls_tb x mod 256) (ISISCodec.ls_tlvs x).
 
-Definition recv_body (s : spk) (i : nat) (f : sif) (src : N) (b : C.body) : spk :=
+Definition recv_body (s : spk) (i : nat) (f : sif) (src : N) (b : ISISCodec.body) : spk :=
   match b with
-  | C.BHello h =>
+  | ISISCodec.BHello h =>
     let v := hello_verdict s f h in
-    let '(t', req) := adj_hello (sp_now s) (if_nbrs f) src (u16 (C.hl_hold h)) v in
-    let created := match v, A.lookup src (if_nbrs f) with
-                   | A.Lists, None | A.NotLists, None => true
+    let '(t', req) := adj_hello (sp_now s) (if_nbrs f) src (u16 (ISISCodec.hl_hold h)) v in
+    let created := match v, Adj.lookup src (if_nbrs f) with
+                   | Adj.Lists, None | Adj.NotLists, None => true
                    | _, _ => false
                    end in
     let info' := if created then (src, info_of_hello h) :: if_info f else if_info f in
     let f' := mkSif (if_index f) (if_addr f) (if_plen f) (if_up f) t' info' in
     with_ifs_db s (set_nth i f' (sp_ifs s)) (request (sp_db s) req)
-  | C.BLsp x =>
+  | ISISCodec.BLsp x =>
     if nbr_up f src then
       let d := sync_db (sp_ifs s) (sp_db s) in
-      let k := id_of_bytes (C.ls_id x) in
-      let sq := u32 (C.ls_seq x) in
-      let newer := match L.lookup k (L.db d) with None => true | Some e => L.seq e <? sq end in
-      let installs := newer && negb (L.id_eqb k (L.local_id d)) in
-      let d' := L.recv_lsp d i k sq (u16 (C.ls_life x)) in
+      let k := id_of_bytes (ISISCodec.ls_id x) in
+      let sq := u32 (ISISCodec.ls_seq x) in
+      let newer := match LSDB.lookup k (LSDB.db d) with None => true | Some e => LSDB.seq e <? sq end in
+      let installs := newer && negb (LSDB.id_eqb k (LSDB.local_id d)) in
+      let d' := LSDB.recv_lsp d i k sq (u16 (ISISCodec.ls_life x)) in
       mkSpk (sp_sys s) (sp_area s) (sp_host s) (sp_hold s) (sp_hello_int s) (sp_metric s) (sp_ifs s) d'
             (if installs then pdu_store k (norm_recv_lsp x) (sp_pdus s) else sp_pdus s) (sp_now s)
     else s
-  | C.BCsnp c =>
+  | ISISCodec.BCsnp c =>
     if nbr_up f src then
       let d := sync_db (sp_ifs s) (sp_db s) in
-      let raw := flat_map tlv_entries (filter (fun t => N.eqb (C.tlv_type t) 9) (C.cs_tlvs c)) in
-      let d' := L.recv_csnp d i (id_of_bytes (C.cs_start c)) (id_of_bytes (C.cs_end c)) (snp_entries_of (C.cs_tlvs c)) in
+      let raw := flat_map tlv_entries (filter (fun t => N.eqb (ISISCodec.tlv_type t) 9) (ISISCodec.cs_tlvs c)) in
+      let d' := LSDB.recv_csnp d i (id_of_bytes (ISISCodec.cs_start c)) (id_of_bytes (ISISCodec.cs_end c)) (snp_entries_of (ISISCodec.cs_tlvs c)) in
       mkSpk (sp_sys s) (sp_area s) (sp_host s) (sp_hold s) (sp_hello_int s) (sp_metric s) (sp_ifs s) d'
             (snp_new_pdus d i raw (sp_pdus s)) (sp_now s)
     else s
-  | C.BPsnp p =>
+  | ISISCodec.BPsnp p =>
     if nbr_up f src then
       let d := sync_db (sp_ifs s) (sp_db s) in
-      let raw := flat_map tlv_entries (filter (fun t => N.eqb (C.tlv_type t) 9) (C.ps_tlvs p)) in
-      let d' := L.recv_psnp d i (snp_entries_of (C.ps_tlvs p)) in
+      let raw := flat_map tlv_entries (filter (fun t => N.eqb (ISISCodec.tlv_type t) 9) (ISISCodec.ps_tlvs p)) in
+      let d' := LSDB.recv_psnp d i (snp_entries_of (ISISCodec.ps_tlvs p)) in
       mkSpk (sp_sys s) (sp_area s) (sp_host s) (sp_hold s) (sp_hello_int s) (sp_metric s) (sp_ifs s) d'
             (snp_new_pdus d i raw (sp_pdus s)) (sp_now s)
     else s
-  | C.BNone => s       (* "Unknown PDU type": an error is returned, nothing changes *)
+  | ISISCodec.BNone => s       (* "Unknown PDU type": an error is returned, nothing changes *)
   end.
 
 (* a frame arrives on interface i from MAC address src *)
@@ -292,8 +289,8 @@ Definition recv_pdu (s : spk) (i : nat) (src : N) (bytes : list N) : spk :=
   match nth_error (sp_ifs s) i with
   | Some f =>
     if if_up f then
-      match C.decode bytes with
-      | C.Ok p => service (recv_body s i f src (C.p_body p))
+      match ISISCodec.decode bytes with
+      | ISISCodec.Ok p => service (recv_body s i f src (ISISCodec.p_body p))
       | _ => s                      (* "Decode failed": logged, nothing changes *)
       end
     else s                          (* no receiver runs on a link that is down *)
@@ -303,29 +300,29 @@ Definition recv_pdu (s : spk) (i : nat) (src : N) (bytes : list N) : spk :=
 (* ------------------------------------------------------------------ what the speaker sends *)
 
 (* hello_sender.go getP2PNeighbor: the neighbor of a point-to-point interface (none if there are several) *)
-Definition p2p_neighbor (f : sif) : option (N * A.nbr) :=
+Definition p2p_neighbor (f : sif) : option (N * Adj.nbr) :=
   match if_nbrs f with [kv] => Some kv | _ => None end.
 
-Definition adj_state_code (st : A.adj_state) : N :=
-  match st with A.Up => 0 | A.Init => 1 | A.Down => 2 end.
+Definition adj_state_code (st : Adj.adj_state) : N :=
+  match st with Adj.Up => 0 | Adj.Init => 1 | Adj.Down => 2 end.
 
 (* hello_sender.go p2pHello: the three-way TLV names the neighbor unless there is none or it is Down *)
-Definition threeway_tlv (f : sif) : C.tlv :=
+Definition threeway_tlv (f : sif) : ISISCodec.tlv :=
   match p2p_neighbor f with
   | Some (k, nb) =>
-    match A.state nb, info_lookup k (if_info f) with
-    | A.Down, _ | _, None => C.new_p2padj_tlv 2 (u32 (if_index f))
-    | st, Some i => C.TP2PAdj 240 15 (adj_state_code st) (u32 (if_index f)) (ni_sys i) (ni_ecid i)
+    match Adj.state nb, info_lookup k (if_info f) with
+    | Adj.Down, _ | _, None => ISISCodec.new_p2padj_tlv 2 (u32 (if_index f))
+    | st, Some i => ISISCodec.TP2PAdj 240 15 (adj_state_code st) (u32 (if_index f)) (ni_sys i) (ni_ecid i)
     end
-  | None => C.new_p2padj_tlv 2 (u32 (if_index f))
+  | None => ISISCodec.new_p2padj_tlv 2 (u32 (if_index f))
   end.
 
-Definition hello_of (s : spk) (f : sif) : C.hello :=
-  C.mkHello 2 (sp_sys s) (u16 (sp_hold s)) 20 1
-    [threeway_tlv f; C.new_proto_tlv [204; 142]; C.new_ipif_tlv [if_addr f]; C.new_area_tlv [sp_area s]].
+Definition hello_of (s : spk) (f : sif) : ISISCodec.hello :=
+  ISISCodec.mkHello 2 (sp_sys s) (u16 (sp_hold s)) 20 1
+    [threeway_tlv f; ISISCodec.new_proto_tlv [204; 142]; ISISCodec.new_ipif_tlv [if_addr f]; ISISCodec.new_area_tlv [sp_area s]].
 
 Definition hello_bytes (s : spk) (f : sif) : list N :=
-  C.enc_packet llc (C.mkPacket hdr_hello (C.BHello (hello_of s f))).
+  ISISCodec.enc_packet llc (ISISCodec.mkPacket hdr_hello (ISISCodec.BHello (hello_of s f))).
 
 Definition out := (nat * list N)%type.     (* interface, frame *)
 
@@ -337,62 +334,68 @@ Definition hellos_out (s : spk) : list out :=
 
 (* lspdu.ToLSPEntry of a database entry: remaining lifetime and sequence number from the entry
    (the lifetime is decremented in place), id and checksum from the stored PDU *)
-Definition entry_of (s : spk) (kv : L.lspid * L.entry) : C.lspentry :=
-  C.mkEntry (u16 (L.life (snd kv))) (id_bytes (fst kv)) (u32 (L.seq (snd kv)))
-            (match pdu_lookup (fst kv) (sp_pdus s) with Some x => u16 (C.ls_csum x) | None => 0 end).
+Definition entry_of (s : spk) (kv : LSDB.lspid * LSDB.entry) : ISISCodec.lspentry :=
+  ISISCodec.mkEntry (u16 (LSDB.life (snd kv))) (id_bytes (fst kv)) (u32 (LSDB.seq (snd kv)))
+            (match pdu_lookup (fst kv) (sp_pdus s) with Some x => u16 (ISISCodec.ls_csum x) | None => 0 end).
 
 Definition src_id (s : spk) : list N := sp_sys s ++ [0].
 Definition mtu : Z := 1500%Z.
 
 (* lsdb.go sendPSNPss: per interface NewPSNPs over the entries whose SSN flag is set there *)
-Definition psnps_for (s : spk) (i : nat) : C.res (list C.psnp) :=
-  C.new_psnps (src_id s) (map (entry_of s) (filter (fun kv => L.mem i (L.ssn (snd kv))) (L.db (sp_db s)))) mtu.
+Definition psnps_for (s : spk) (i : nat) : ISISCodec.res (list ISISCodec.psnp) :=
+  ISISCodec.new_psnps (src_id s) (map (entry_of s) (filter (fun kv => LSDB.mem i (LSDB.ssn (snd kv))) (LSDB.db (sp_db s)))) mtu.
 
-Definition psnp_bytes (p : C.psnp) : list N := C.enc_packet llc (C.mkPacket hdr_psnp (C.BPsnp p)).
-Definition csnp_bytes (c : C.csnp) : list N := C.enc_packet llc (C.mkPacket hdr_csnp (C.BCsnp c)).
-Definition lsp_bytes (x : C.lsp) : list N := C.enc_packet llc (C.mkPacket hdr_lsp (C.BLsp x)).
+Definition psnp_bytes (p : ISISCodec.psnp) : list N := ISISCodec.enc_packet llc (ISISCodec.mkPacket hdr_psnp (ISISCodec.BPsnp p)).
+Definition csnp_bytes (c : ISISCodec.csnp) : list N := ISISCodec.enc_packet llc (ISISCodec.mkPacket hdr_csnp (ISISCodec.BCsnp c)).
+Definition lsp_bytes (x : ISISCodec.lsp) : list N := ISISCodec.enc_packet llc (ISISCodec.mkPacket hdr_lsp (ISISCodec.BLsp x)).
 
 Definition psnps_out (s : spk) : list out :=
   flat_map (fun p =>
-    if if_up (snd p) || negb (is_empty (if_nbrs (snd p))) then
+    if if_up (snd p) then            (* on a link that is down the handle is closed (or was never opened) *)
       match psnps_for s (fst p) with
-      | C.Ok ps => map (fun x => (fst p, psnp_bytes x)) ps
+      | ISISCodec.Ok ps => map (fun x => (fst p, psnp_bytes x)) ps
       | _ => []
       end
     else []) (indexed 0 (sp_ifs s)).
 
 (* lsdb.go sendCSNPs: NewCSNPs over the whole database on interfaces with an Up neighbor *)
-Definition csnps_for (s : spk) : C.res (list C.csnp) :=
-  C.new_csnps (src_id s) (map (entry_of s) (L.db (sp_db s))) mtu.
+Definition csnps_for (s : spk) : ISISCodec.res (list ISISCodec.csnp) :=
+  ISISCodec.new_csnps (src_id s) (map (entry_of s) (LSDB.db (sp_db s))) mtu.
 
-Definition has_up_nbr (f : sif) : bool := existsb (fun kv => A.is_up (A.state (snd kv))) (if_nbrs f).
+Definition has_up_nbr (f : sif) : bool := existsb (fun kv => Adj.is_up (Adj.state (snd kv))) (if_nbrs f).
 
 Definition csnps_out (s : spk) : list out :=
   flat_map (fun p =>
     if has_up_nbr (snd p) then
       match csnps_for s with
-      | C.Ok cs => map (fun x => (fst p, csnp_bytes x)) cs
+      | ISISCodec.Ok cs => map (fun x => (fst p, csnp_bytes x)) cs
       | _ => []
       end
     else []) (indexed 0 (sp_ifs s)).
 
 (* lsdb.go sendLSPDUs: every entry on every interface whose SRM flag is set: the stored PDU with the
    current remaining lifetime *)
-Definition flooded (s : spk) (kv : L.lspid * L.entry) : option C.lsp :=
+Definition flooded (s : spk) (kv : LSDB.lspid * LSDB.entry) : option ISISCodec.lsp :=
   match pdu_lookup (fst kv) (sp_pdus s) with
-  | Some x => Some (C.mkLsp (C.ls_len x) (u16 (L.life (snd kv))) (C.ls_id x) (C.ls_seq x) (C.ls_csum x) (C.ls_tb x) (C.ls_tlvs x))
+  | Some x => Some (ISISCodec.mkLsp (ISISCodec.ls_len x) (u16 (LSDB.life (snd kv))) (ISISCodec.ls_id x) (ISISCodec.ls_seq x) (ISISCodec.ls_csum x) (ISISCodec.ls_tb x) (ISISCodec.ls_tlvs x))
   | None => None
   end.
 
+Definition link_is_up (s : spk) (i : nat) : bool :=
+  match nth_error (sp_ifs s) i with Some f => if_up f | None => false end.
+
 Definition lsps_out (s : spk) : list out :=
   flat_map (fun kv =>
-    flat_map (fun i => match flooded s kv with Some x => [(i, lsp_bytes x)] | None => [] end)
-             (L.srm (snd kv))) (L.db (sp_db s)).
+    flat_map (fun i => if link_is_up s i
+                       then match flooded s kv with Some x => [(i, lsp_bytes x)] | None => [] end
+                       else [])
+             (LSDB.srm (snd kv))) (LSDB.db (sp_db s)).
 
 (* ------------------------------------------------------------------ time and links *)
 
-(* one second: adjacency checkers, lifetime decrement, LSP updater, then - when due - LSP sender,
-   PSNP sender, hello senders, CSNP sender *)
+(* one second: adjacency checkers (the LSP updater serves their request at once), lifetime decrement
+   (the updater serves a refresh request), then - when due - LSP sender, PSNP sender, hello
+   senders, CSNP sender *)
 Definition check_if (now : N) (f : sif) : sif * bool :=
   let '(t', req) := adj_check now (if_nbrs f) in
   (mkSif (if_index f) (if_addr f) (if_plen f) (if_up f) t' (if_info f), req).
@@ -402,13 +405,13 @@ Definition tick (s : spk) : spk * list out :=
   let cs := map (check_if now) (sp_ifs s) in
   let ifs' := map fst cs in
   let req := existsb snd cs in
-  let d1 := L.tick (request (sync_db ifs' (sp_db s)) req) in
-  let s1 := service (mkSpk (sp_sys s) (sp_area s) (sp_host s) (sp_hold s) (sp_hello_int s) (sp_metric s)
-                           ifs' d1 (sp_pdus s) now) in
+  let s0 := service (mkSpk (sp_sys s) (sp_area s) (sp_host s) (sp_hold s) (sp_hello_int s) (sp_metric s)
+                           ifs' (request (sync_db ifs' (sp_db s)) req) (sp_pdus s) now) in
+  let s1 := service (with_ifs_db s0 (sp_ifs s0) (LSDB.tick (sync_db (sp_ifs s0) (sp_db s0)))) in
   let due5 := now mod 5 =? 0 in
   let o_lsp := if due5 then lsps_out s1 else [] in
   let o_psnp := if due5 then psnps_out s1 else [] in
-  let s2 := if due5 then with_ifs_db s1 (sp_ifs s1) (L.clear_all_ssn (sp_db s1)) else s1 in
+  let s2 := if due5 then with_ifs_db s1 (sp_ifs s1) (LSDB.clear_all_ssn (sp_db s1)) else s1 in
   let o_hello := if (0 <? sp_hello_int s) && (now mod sp_hello_int s =? 0) then hellos_out s2 else [] in
   let o_csnp := if now mod 10 =? 0 then csnps_out s2 else [] in
   (s2, o_lsp ++ o_psnp ++ o_hello ++ o_csnp).
@@ -418,7 +421,7 @@ Definition link_down (s : spk) (i : nat) : spk :=
   match nth_error (sp_ifs s) i with
   | Some f =>
     if if_up f then
-      let t' := map (fun kv => (fst kv, A.mkNbr A.Down (A.timeout (snd kv)) (sp_now s))) (if_nbrs f) in
+      let t' := map (fun kv => (fst kv, Adj.mkNbr Adj.Down (Adj.timeout (snd kv)) (sp_now s))) (if_nbrs f) in
       let f' := mkSif (if_index f) (if_addr f) (if_plen f) false t' (if_info f) in
       service (with_ifs_db s (set_nth i f' (sp_ifs s)) (request (sp_db s) true))
     else s
@@ -449,9 +452,10 @@ Definition step (s : spk) (e : event) : spk * list out :=
   | LinkDown i => (link_down s i, [])
   end.
 
-(* a freshly started speaker: Start() generated the first LSP, the interfaces are configured, links down *)
+(* a freshly started speaker, as cmd/bio-rd sets it up: Start() generates the first LSP (no interface
+   yet), then the interfaces are configured and the device server reports them, links down *)
 Definition init (sys area host : list N) (hold hello_int metric : N) (ifs : list (N * N * N)) : spk :=
   let sifs := map (fun c => match c with (idx, addr, plen) => mkSif idx addr plen false [] [] end) ifs in
-  let s0 := mkSpk sys area host hold hello_int metric sifs
-                  (L.mkS (db_ifs sifs) (be_val sys) [] 0 true) [] 0 in
-  service s0.
+  let s0 := service (mkSpk sys area host hold hello_int metric []
+                           (LSDB.mkS [] (be_val sys) [] 0 true) [] 0) in
+  with_ifs_db s0 sifs (sync_db sifs (sp_db s0)).
